@@ -379,6 +379,20 @@ func report(prop, tier string, scs []Scenario, all []shardResult, infra string, 
 		fmt.Printf("  class: %s (%d scenarios)\n  %s\n", fp, c.count, truncate(c.first.Violation, 1500))
 		vlist = append(vlist, map[string]any{"fingerprint": fp, "known": false, "scenarios": c.count, "replay": path})
 	}
+	// supplementary free-running -race pass (thorough tier; run by the driver before this binary)
+	fr := os.Getenv("VERIF_FREERACE")
+	if strings.HasPrefix(fr, "race:") || strings.HasPrefix(fr, "failed:") {
+		path := fr[strings.Index(fr, ":")+1:]
+		fp := "freerun|" + fr[:strings.Index(fr, ":")]
+		if k, ok := isKnown(fp); ok {
+			knownV++
+			fmt.Printf("KNOWN-FINDING: property=%s key=%s %s\n", prop, k.key, k.text)
+		} else {
+			newV++
+			fmt.Printf("VIOLATION property=%s replay=%s\n  class: %s (free-running pass under the Go race detector; see the log)\n", prop, path, fp)
+			vlist = append(vlist, map[string]any{"fingerprint": fp, "known": false, "replay": path})
+		}
+	}
 	var samples []any
 	for i, r := range all {
 		if i%(len(all)/6+1) == 0 {
@@ -402,6 +416,7 @@ func report(prop, tier string, scs []Scenario, all []shardResult, infra string, 
 		"bound_completed_min":           minBound,
 		"exhaustive":                    !capped,
 		"violation_classes":             vlist,
+		"supplementary_free_running_race_pass": fr,
 	}
 	ev := map[string]any{"property_id": prop, "tier": tier, "seed": seed(), "level": "model_checking", "coverage": cov,
 		"assumptions": []string{"sequential consistency at synchronisation-operation granularity (race-free => SC, races checked by the vector-clock monitor on instrumented accesses)",
